@@ -161,6 +161,9 @@ def ref_eval_points(algo, u1, v1, a1, un, vn, an, prm):
 
 
 def run(ctx):
+    from . import e2e_rules as _e2e
+
+    ctx.attempt(_e2e.dynamics_rule, ctx, 'R5.E1')
     ctx.attempt(step_commit_rule, ctx)
     ctx.attempt(derived_parameters_rule, ctx)
     ctx.attempt(validate_before_commit_rule, ctx)
